@@ -70,7 +70,74 @@ def _drop_sample(plan, i):
     return p2
 
 
+def candidates_est(plan):
+    """Estimator-level histories: drop operations (with what depends on them), simplest
+    container, fewer samples, fewer path points, simpler constructor arguments."""
+    ops = plan["ops"]
+    for i, op in enumerate(ops):
+        p2 = copy.deepcopy(plan)
+        if op["op"] == "new":
+            mid = op["id"]
+            p2["ops"] = [o for o in p2["ops"] if o.get("id") != mid and mid not in (o.get("a"), o.get("b"))]
+        else:
+            del p2["ops"][i]
+        if any(o["op"] in ("fit", "path") for o in p2["ops"]):
+            yield "drop_op", p2
+    for i, op in enumerate(ops):
+        if op.get("container", "F") != "F" and op["op"] in ("fit", "path"):
+            p2 = copy.deepcopy(plan)
+            p2["ops"][i]["container"] = "F"
+            yield "container_F", p2
+        if op.get("labels") is not None:
+            p2 = copy.deepcopy(plan)
+            p2["ops"][i]["labels"] = None
+            yield "plain_labels", p2
+        if op["op"] == "path" and len(op["alphas"]) > 1:
+            for j in range(len(op["alphas"])):
+                p2 = copy.deepcopy(plan)
+                del p2["ops"][i]["alphas"][j]
+                yield "drop_alpha", p2
+        if op["op"] == "new":
+            a = op["args"]
+            for name, simple in (("p0", 10), ("ws_strategy", "subdiff"), ("warm_start", False),
+                                 ("positive", False)):
+                if name in a and a[name] != simple:
+                    p2 = copy.deepcopy(plan)
+                    p2["ops"][i]["args"][name] = simple
+                    yield "arg_" + name, p2
+            for name in ("max_iter", "max_epochs"):
+                if name in a and a[name] > 1:
+                    p2 = copy.deepcopy(plan)
+                    p2["ops"][i]["args"][name] = int(a[name] // 2)
+                    yield "lower_" + name, p2
+    used = {o["data"] for o in ops if "data" in o}
+    for d in sorted(used):
+        ds = plan["datasets"][d]
+        X = np.array(ds["X"], dtype=float)
+        has_sw = any("sample_weights" in ((o.get("args") or {}).get("family") or {}).get("dargs", {})
+                     for o in ops if o["op"] == "new")
+        if has_sw:
+            continue
+        for r in range(X.shape[0] - 1, -1, -1):
+            if X.shape[0] <= 3:
+                break
+            ynew = np.delete(np.array(ds["y"], dtype=float), r, axis=0)
+            if ds["kind"] == "bin" and len(np.unique(ynew)) < 2:
+                continue
+            if ds["kind"] == "surv" and not np.any(ynew[:, 1] != 0):
+                continue
+            p2 = copy.deepcopy(plan)
+            p2["datasets"][d]["X"] = np.delete(X, r, axis=0).tolist()
+            p2["datasets"][d]["y"] = ynew.tolist()
+            yield "drop_sample", p2
+
+
 def candidates(plan):
+    if plan.get("level") == "est":
+        yield from candidates_est(plan)
+        return
+    if plan.get("level") == "matrix":
+        return
     ops = plan["ops"]
     # 1. drop operations
     for i in range(len(ops)):
@@ -188,6 +255,7 @@ def main(argv=None):
     from . import checks_registry as R
     from .util import dumps
     plan = json.load(open(args.plan))
+    R.worker_init(plan["check"])
 
     def execute(p):
         return R.execute(p["check"], p)
